@@ -226,11 +226,14 @@ def cover(graph: Graph, adapter_factory, *, seed=0, max_path=80, known=None, bud
     return stats, violations, known_hits, known_gone, samples
 
 
-_PAR = None
+_PARS = {}        # job id -> parameters; filled BEFORE the pool forks, so that the children find their entry (several
+                  # threads of a check may run cover_parallel at the same time: no shared single slot)
+_PAR_SEQ = [0]
 
 
-def _par_one(i):
-    graph, factory, seed, kw, index, nproc = _PAR
+def _par_one(arg):
+    key, i = arg
+    graph, factory, seed, kw, index, nproc = _PARS[key]
     got = set()
     stats, viol, kh, kg, samples = cover(graph, factory, seed=seed * 1000 + i, collect=got,
                                          only=lambda n, a: index[(n, a)] % nproc == i, **kw)
@@ -238,18 +241,20 @@ def _par_one(i):
 
 
 def cover_parallel(graph: Graph, adapter_factory, *, seed=0, nproc=6, **kw):
-    """Several independent `cover` runs (different seeds, same wall-clock budget) in forked processes; the union of the
-    pairs they exercised is reported.  Same return shape as `cover`."""
-    global _PAR
-    import multiprocessing as mp
+    """Several `cover` runs in forked processes, the pairs partitioned among them (pair index mod nproc; every worker also
+    records the pairs it crosses on the way); the union of the pairs they exercised is reported.  Same return shape as
+    `cover`.  Thread-safe: each call has its own parameter slot."""
+    import multiprocessing as mp, threading
     pairs = sorted((n, a) for n, acts in graph.out.items() for a in acts)
     index = {p: i for i, p in enumerate(pairs)}
-    _PAR = (graph, adapter_factory, seed, kw, index, nproc)
+    _PAR_SEQ[0] += 1
+    key = (threading.get_ident(), _PAR_SEQ[0], id(graph))
+    _PARS[key] = (graph, adapter_factory, seed, kw, index, nproc)
     try:
         with mp.get_context("fork").Pool(nproc) as pool:
-            res = pool.map(_par_one, range(nproc))
+            res = pool.map(_par_one, [(key, i) for i in range(nproc)])
     finally:
-        _PAR = None
+        _PARS.pop(key, None)
     covered = set()
     stats = {"pairs": len(pairs), "edges": graph.nedges, "nodes": len(graph.nodes), "paths": 0, "steps": 0, "edges_matched": 0,
              "workers": nproc}
